@@ -161,7 +161,13 @@ def NpArr.rows : NpArr V → List (List V)
   | .d1 xs => [xs]
   | .d2 _ rows => rows
 
-/-- `numpy_array_to_live_points(array, names, nsp)` -/
+/-- `numpy_array_to_live_points(array, names, nsp)`.
+**Written in specification form**: the branch structure (size 0 / 1-d / column count / dtype errors)
+follows the code, but the loop `for i, n in enumerate(names): struct_array[n] = array[..., i]` over
+the array returned by `empty_structured_array` is given by its closed form (`row.take k ++ defaults`),
+not re-enacted assignment by assignment.  The theorems about the success path are therefore near
+unfoldings of this definition; that the real loop computes this closed form is established by the
+correspondence run (exact bit comparison on generated inputs), not by a proof. -/
 def numpyArrayToLivePoints (cfg : Cfg V) (r : Registry V) (a : NpArr V) (names : List String)
     (nsp : Bool) : Except Err (LP V) :=
   if a.size = 0 then emptyStructured cfg r 0 names nsp
@@ -172,7 +178,9 @@ def numpyArrayToLivePoints (cfg : Cfg V) (r : Registry V) (a : NpArr V) (names :
       if a.ncols < names.length then .error .indexErr
       else .ok ⟨s.fields, s.nf, a.rows.map fun row => row.take names.length ++ tail cfg r nsp⟩
 
-/-- `parameters_to_live_point(parameters, names, nsp)` -/
+/-- `parameters_to_live_point(parameters, names, nsp)`.  **Specification form** as well: the single
+call `np.array([(*parameters, *defaults)], dtype)` is modelled by its result (the tuple laid out
+over the dtype fields, `ValueError` on a length mismatch); content is in the tie. -/
 def parametersToLivePoint (cfg : Cfg V) (r : Registry V) (ps : List V) (names : List String)
     (nsp : Bool) : Except Err (LP V) :=
   if ps.isEmpty then emptyStructured cfg r 0 names nsp
@@ -216,7 +224,12 @@ def transpose (k : Nat) : List (List V) → List (List V)
 
 /-- `dict_to_live_points(d, nsp)`; `d` in insertion order (keys are distinct: it is a dict).
 The scalar branch (`np.array([tuple])`) is taken only when the FIRST value has no `__len__`;
-otherwise the number of points is the length of the first value. -/
+otherwise the number of points is the length of the first value.
+**Specification form**: the loop `for k, v in d.items(): array[k] = v` (NumPy broadcasting per
+field) is modelled by its closed form — broadcast every value to a column, transpose the columns
+into records, append the defaults; the scalar branch by the result of `np.array([tuple], dtype)`.
+The theorems about the success paths are near unfoldings plus the transposition lemmas; that the
+real field-wise assignment computes this closed form is established by the tie. -/
 def dictToLivePoints (cfg : Cfg V) (r : Registry V) (d : List (String × DVal V)) (nsp : Bool) :
     Except Err (LP V) :=
   match d with
@@ -236,7 +249,9 @@ def dictToLivePoints (cfg : Cfg V) (r : Registry V) (d : List (String × DVal V)
       | none => .error .valueErr               -- "could not broadcast"
       | some cols => .ok ⟨s.fields, s.nf, (transpose xs.length cols).map (· ++ tail cfg r nsp)⟩
 
-/-- `dataframe_to_live_points(df, nsp)`: column labels and the rows of `df.values` -/
+/-- `dataframe_to_live_points(df, nsp)`: column labels and the rows of `df.values`.
+**Specification form**: `np.array([tuple(x) + extra for x in df.values], dtype)` is modelled by its
+result; content is in the tie. -/
 def dataframeToLivePoints (cfg : Cfg V) (r : Registry V) (cols : List String) (rows : List (List V))
     (nsp : Bool) : Except Err (LP V) :=
   match getDtype cfg r cols nsp with
